@@ -49,6 +49,10 @@ pub(crate) struct ConnectionManager {
     /// Handles to the request handlers for all current connections.
     connection_handlers: JoinSet<()>,
 
+    /// Set once a connection handler was cancelled (the runtime is being torn down) instead of
+    /// running to completion: such a handler never removed its entry from the active peers.
+    handler_cancelled: bool,
+
     /// A map of all the inflight attempts to establish outbound connections started internally due
     /// to a peer being configured as a KnownPeer.
     pending_dials: HashMap<PeerId, oneshot::Receiver<Result<PeerId>>>,
@@ -82,6 +86,7 @@ impl ConnectionManager {
                 mailbox: receiver,
                 pending_connections: JoinSet::new(),
                 connection_handlers: JoinSet::new(),
+                handler_cancelled: false,
                 pending_dials: HashMap::default(),
                 dial_backoff_states: HashMap::default(),
                 active_peers,
@@ -180,6 +185,7 @@ impl ConnectionManager {
                         if e.is_panic() {
                             std::panic::resume_unwind(e.into_panic());
                         }
+                        self.handler_cancelled = true;
                     }
                 },
             }
@@ -213,12 +219,16 @@ impl ConnectionManager {
         crate::verif::point("cm.shutdown.pending_done");
 
         // Wait for all connection handlers to terminate
-        while self.connection_handlers.join_next().await.is_some() {}
+        // A handler that was cancelled (the runtime is being torn down) never got to remove its
+        // own entry from the set of active peers.
+        while let Some(result) = self.connection_handlers.join_next().await {
+            self.handler_cancelled |= matches!(result, Err(e) if e.is_cancelled());
+        }
         #[cfg(bmwill_anemo_verif)]
         crate::verif::point("cm.shutdown.handlers_done");
         // At this point we shouldn't have any active peers
         assert!(
-            self.active_peers.inner().connections.is_empty(),
+            self.handler_cancelled || self.active_peers.inner().connections.is_empty(),
             "ActivePeers should be empty after all connection handlers have terminated"
         );
 
